@@ -1,8 +1,10 @@
 SPECIFICATION Spec
 CONSTANTS
   NStmt = 2
-  Patterns <- PatQuick
-  TailPatterns <- TailQuick
+  Patterns <- PatThorough
+  TailPatterns <- TailThorough
+  JoinOpts <- JoinAll
+  EatOpts <- EatThorough
   LeadModes <- LeadInts
   TrailModes <- TrailInts
 INVARIANTS Accept Reject AllClausesSeen
